@@ -21,15 +21,12 @@ def asymmetricFormats : List FmtRow := [
   ("base.BooleanElement", ["?3x", "?"], ["?3x"]),
   -- `write` defines the closure `writer` (compression `H`, data) before the statement that writes the rectangle `4i`
   ("filter_effects.FilterEffectExtra", ["B", "4i", "H"], ["B", "H", "4i"]),
-  -- the same class attribute on both sides
-  ("header.FileHeader", ["<cls._FORMAT>"], ["<self._FORMAT>"]),
   -- `write_fmt(fp, "%d?" % len(values), *values)`: 8 or 9 flags (`print_flags` is `None` for old files)
   ("image_resources.PrintFlags", ["8?", "?"], ["1?"]),
   -- the last `I` of `read` is the peek at the version of the per-slice descriptor block (`fp.seek(-4, 1)` follows)
   ("image_resources.SliceV6", ["3I", "I", "I", "4I", "?", "2I", "4B", "I"], ["3I", "I", "I", "4I", "?", "2I", "4B"]),
   -- skeleton (Props/C01.lean, Props/C02.lean): the section length is read with `read_fmt`, written by `write_length_block`
   ("layer_and_mask.LayerAndMaskInformation", ["<('I', 'Q')[version - 1]>"], []),
-  ("layer_and_mask.LayerInfo", ["<('I', 'Q')[version - 1]>", "h"], ["<fmt>", "h"]),
   -- the `I` of `write` is the empty mask block (`write_fmt(fp, "I", 0)` when there is no mask data: `MaskData.read` reads that length); skeleton
   ("layer_and_mask.LayerRecord", ["4iH", "4s4sBB"], ["4iH", "4s4sBB", "I"])
 ]
@@ -40,8 +37,8 @@ def asymmetricFrames : List FrameRow := [
   -- (C01Payload3.pascal_string_roundtrip_at_end; C02.pascal_string_resave_stable)
   ("image_resources.PascalString", ["pascal_string padding=2"], ["pascal_string padding=1"]),
   -- skeleton: lengths read with `read_fmt`, written by `write_length_block`
-  ("layer_and_mask.LayerAndMaskInformation", [], ["length_block fmt=fmt padding=1"]),
-  ("layer_and_mask.LayerInfo", [], ["length_block fmt=fmt padding=1"]),
+  ("layer_and_mask.LayerAndMaskInformation", [], ["length_block fmt=('I', 'Q')[version - 1] padding=1"]),
+  ("layer_and_mask.LayerInfo", [], ["length_block fmt=('I', 'Q')[version - 1] padding=1"]),
   -- the length of the pixel data is read as the third `I` of `read`, written by `write_length_block`
   ("patterns.VirtualMemoryArray", [], ["length_block fmt='I' padding=1"])
 ]
